@@ -269,6 +269,8 @@ def determined(case):
             q = p if p is not None else 2
             if not is_prime(q):
                 return ('unsat', 'char not prime')
+            if q == 2 and any(x >= 2 for x in md[1]):
+                return ('unsat', 'term string with coefficients is ill formatted over GF(2)')
             f = [x % q for x in md[1]]
         elif md[0] == 'p':
             q = md[1]
@@ -314,7 +316,13 @@ def secfld_oracle(case, res, S):
     if S is None:
         if det is not None and det[0] == 'sat':
             p, d = det[1], det[2]
-            lifted = t > 0 and p is not None and d is not None and p ** d <= m
+            # the field the defaults select when the request leaves p or d open
+            if p is None:
+                dd = d or 1
+                p = 2 if n is None else next(k for k in range(2, 2 * n + 3) if is_prime(k) and k ** dd >= n)
+            if d is None:
+                d = 1 if n is None else max(clog(p, n), math.ceil(math.log(n, p)))
+            lifted = t > 0 and p ** d <= m
             if lifted and d > 1:
                 return []   # documented limitation: small extension fields are not lifted (assert in _SecFld)
             if n is not None and c is not None and e is None and md[0] == 'n' and o is None and n > 2 ** 40:
@@ -352,7 +360,7 @@ def secfld_oracle(case, res, S):
     # least prime rule for min_order with free characteristic
     if clean(case) and md[0] == 'n' and o is None and c is None and n is not None:
         dd = e or 1
-        least = next(k for k in range(2, n + 2) if is_prime(k) and k ** dd >= n)
+        least = next(k for k in range(2, 2 * n + 3) if is_prime(k) and k ** dd >= n)
         if (p, d) != (least, dd):
             probs.append(f'min_order={n}, ext_deg={dd}: expected least prime {least}, got GF({p}^{d})')
     # lifting
@@ -393,18 +401,18 @@ def moduli(rng, thorough):
     polys = [[1, 1], [0, 1], [1, 1, 1], [1, 0, 1], [1, 1, 0, 1], [1, 0, 1, 1], [1, 1, 1, 1], [1, 1, 0, 0, 1],
              [1, 0, 0, 0, 1], [1, 1, 0, 1, 1, 0, 0, 0, 1], [2, 1, 1], [1, 0, 2], [2, 0, 1], [1, 2, 0, 1], [2, 2, 1],
              [3, 0, 1], [2, 0, 0, 1], [1, 1, 0, 0, 0, 0, 1], [1], [0], [], [2], [3, 3, 1], [1, 2, 3, 4, 1], [5, 1, 1]]
-    ms += [('s', f) for f in polys]
+    ms += [('s', tuple(f)) for f in polys]
     for p in PRIMES[:4]:
         for f in polys:
             g = [x % p for x in f]
             while g and g[-1] == 0:
                 g.pop()
-            ms.append(('p', p, g))
+            ms.append(('p', p, tuple(g)))
     if thorough:
         for _ in range(60):
             p = rng.choice(PRIMES)
             dgr = rng.randrange(1, 5)
-            ms.append(('s', [rng.randrange(0, p + 2) for _ in range(dgr)] + [1]))
+            ms.append(('s', tuple([rng.randrange(0, p + 2) for _ in range(dgr)] + [1])))
     return ms
 
 
